@@ -377,7 +377,11 @@ func (fr *frame) runDefers() {
 
 // goPanic raises a Go runtime panic in the target program.
 func (p *Path) goPanic(fr *frame, msg string) {
-	panic(targetPanic{v: p.runtimeErrorValue(msg), msg: "runtime error: " + msg})
+	where := ""
+	for f, n := fr, 0; f != nil && n < 6; f, n = f.caller, n+1 {
+		where += " <- " + f.fn.Name() + "@" + posOf(p, f.curInstr)
+	}
+	panic(targetPanic{v: p.runtimeErrorValue(msg), msg: "runtime error: " + msg + where})
 }
 
 func (p *Path) goPanicTh(th *Thread, fr *frame, msg string) { p.goPanic(fr, msg) }
